@@ -746,6 +746,9 @@ func C01(p *core.Program, r *core.Report) {
 	// ---- T11
 	checkSearchBounds(p, r, "T11", fns, unitName)
 
+	// ---- T13
+	checkLinearBounds(p, r, "T13", fns, unitName)
+
 	// ---- T3
 	nT3 := 0
 	for _, fn := range fns {
